@@ -62,6 +62,10 @@ func (l *DeadlineLimiter) tryAcquire(ctx context.Context) (listener core.Listene
 
 		// We have reached the limit so block until a token is released
 		timeout := l.deadline.Sub(time.Now().UTC())
+		if timeout <= 0 {
+			// the deadline is reached: a zero timeout would mean "no timer" below and block past the deadline
+			return nil, false
+		}
 
 		// We have reached the limit so block until:
 		// - A token is released
